@@ -117,7 +117,8 @@ def perm_notes_job(spec, size):
         for (nm, kind), v in zip(spec.outs[:3], r1):
             A.observe(nm, v)
         pr = list(range(n))[::-1]
-        for pe in list(itertools.permutations(range(m)))[1:4]:
+        # the reference is reversed; the estimate runs through up to three non-identity orders (its only order if it has one note)
+        for pe in (list(itertools.permutations(range(m)))[1:4] or [tuple(range(m))]):
             pe = list(pe)
             p = dict(ref=tuple(a[pr] for a in inp['ref']), est=tuple(a[pe] for a in inp['est']), kw=inp['kw'])
             r2 = spec.call(p)
